@@ -1,16 +1,19 @@
-//go:build verif && (vh_all || vh_c05)
+//go:build verif && (vh_all || vh_c05 || vh_c06)
 
 package props
 
 import (
 	"fmt"
+	"os"
+	"strings"
 	"time"
 
 	"github.com/cloudwego/eino/verifharness/gcase5"
 	"github.com/cloudwego/eino/verifharness/vh"
 )
 
-// Case family "keyed" of C05: the graph case language with compose.WithInputKey / WithOutputKey
+// Case family "keyed" of C05 / C06 (registered for C05 in c05_keyed_reg.go and for C06 in
+// c06_keyed.go; the same generated cases and runs, judged by the property being checked): the graph case language with compose.WithInputKey / WithOutputKey
 // nodes. The pending input of an input-keyed node is the whole map of its predecessors (the
 // wrapper's input type), converted stream <-> value by the wrapper's own converter when a
 // checkpoint is written / restored in a stream paradigm; so the interrupt points are placed so that
@@ -18,8 +21,6 @@ import (
 // predecessor, the node itself asks for a rerun) and the resume histories mix the four calling
 // paradigms. Same oracle and comparison as the main family (gcase5.Evaluate): per call against the
 // model, across calls against the uninterrupted run.
-
-func init() { c05Extra = append(c05Extra, runC05Keyed) }
 
 var c05kParadigms = []string{"invoke", "stream", "collect", "transform"}
 
@@ -70,9 +71,39 @@ func c05KeyedGen(ctx *vh.Ctx, r *vh.Rand, i int) *gcase5.Case {
 	return c
 }
 
-func runC05Keyed(ctx *vh.Ctx) error {
-	ctx.Res.Rule += " | keyed family: the same case language with WithInputKey / WithOutputKey tag nodes (45-80 % of the tag nodes; an input key is one the node's input carries, rarely a missing one), interrupt points biased so that input-keyed nodes are pending tasks of a checkpoint (interrupt-before on the node, interrupt-after on a predecessor, the node asks for a rerun), 85 % of the histories with a random paradigm per call (invoke / stream / collect / transform, at least one on streams); compared like the main family"
+// c05FamilyOn: VERIF_FAMILY=<name>[,<name>…] (main | eager | keyed | streams) restricts a C05 / C06 run
+// to some of its case families (a development aid: e.g. many seeds of one family); unset = all.
+func c05FamilyOn(name string) bool {
+	f := os.Getenv("VERIF_FAMILY")
+	if f == "" {
+		return true
+	}
+	for _, x := range strings.Split(f, ",") {
+		if strings.TrimSpace(x) == name {
+			return true
+		}
+	}
+	return false
+}
+
+// c05PinOther: the other property of the pair (C05 <-> C06) has its own source fact and repair; the
+// model runs with the variant the implementation under test has (probed), so that the check of one
+// property does not depend on the other's repair.
+func c05PinOther(ctx *vh.Ctx) func(c *gcase5.Case) {
+	if ctx.Prop == "C06" {
+		other := gcase5.ProbeFwdStale()
+		return func(c *gcase5.Case) { c.CfgFwdStale = &other }
+	}
 	other := gcase5.ProbeInitialChecked()
+	return func(c *gcase5.Case) { c.CfgInitialChecked = &other }
+}
+
+func runC05Keyed(ctx *vh.Ctx) error {
+	if !c05FamilyOn("keyed") {
+		return nil
+	}
+	ctx.Res.Rule += " | keyed family: the same case language with WithInputKey / WithOutputKey tag nodes (45-80 % of the tag nodes; an input key is one the node's input carries, rarely a missing one), interrupt points biased so that input-keyed nodes are pending tasks of a checkpoint (interrupt-before on the node, interrupt-after on a predecessor, the node asks for a rerun), 85 % of the histories with a random paradigm per call (invoke / stream / collect / transform, at least one on streams); compared like the main family"
+	pin := c05PinOther(ctx)
 	r := vh.NewRand(ctx.Seed*0x9E3779B97F4A7C15 + 0xC05)
 	n := ctx.N(2500, 25000)
 	limit := time.Duration(ctx.N(9, 60)) * time.Second
@@ -81,8 +112,11 @@ func runC05Keyed(ctx *vh.Ctx) error {
 	for i := 0; i < n && time.Since(start) < limit; i++ {
 		done++
 		c := c05KeyedGen(ctx, r, i)
-		c.CfgInitialChecked = &other
-		if err := gcase5.Evaluate(ctx, "C05", c, true); err != nil {
+		if ctx.Prop == "C06" && r.Chance(8) {
+			c.NoID = true // no checkpoint id: a single call, nothing may be stored
+		}
+		pin(c)
+		if err := gcase5.Evaluate(ctx, ctx.Prop, c, true); err != nil {
 			return err
 		}
 	}
